@@ -809,6 +809,14 @@ impl<R: BufRead> BitReader<R> {
     }
 }
 
+#[cfg(image_webp_verif)]
+impl<R: BufRead> BitReader<R> {
+    /// Verification hook: `BitReader::new` is private to this module.
+    pub(crate) fn verif_new(reader: R) -> Self {
+        Self::new(reader)
+    }
+}
+
 #[cfg(test)]
 mod test {
 
